@@ -48,6 +48,9 @@ def link_result_files(jobpath: Path, old_name: str, new_name: str):
 
 
 def fix_deprecated(workpath: Path, fix: bool, cleanup: bool):
+    # The links we create hold the path of the job folder: it must not be
+    # relative to the current directory
+    workpath = workpath.absolute()
     jobspath = workpath / "jobs"
     logger.info("Looking for deprecated jobs in %s", jobspath)
 
